@@ -35,6 +35,7 @@ pub fn run(prop: &str, tier: &str) -> ! {
 		"C08" => c08::run(tier),
 		"C09" => c09::run(tier),
 		"C10" => c10::run(tier),
+		"C10R" => c10::run_small(tier),
 		"C11" => c11::run(tier),
 		"C12" => c12::run(tier),
 		"C13" => c13::run(tier),
